@@ -187,12 +187,21 @@ def safe_name(s):
 def drive(prop, tier, seed, jobs=None, replay=None):
     t0 = time.time()
     mod = load_prop(prop)
+    # the trusted base is re-validated at the start of every check; a failure says nothing about the repository
+    try:
+        from vlib.ref import mc6809, tape, dskfs
+        mc6809.selftest(n=3000)
+        tape.selftest()
+        dskfs.selftest()
+    except Exception as e:
+        print("INCONCLUSIVE property=%s reason=reference-model self-test failed: %r" % (prop, e))
+        return 2
     if jobs is None:
         jobs = int(os.environ.get("VERIF_JOBS", "0")) or (getattr(mod, "JOBS", {}).get(tier) or (8 if tier == "quick" else 16))
     work = os.path.join(OUT, "work", "%s-%s-%d" % (prop, tier, os.getpid()))
     os.makedirs(work, exist_ok=True)
     env = dict(os.environ)
-    env.update({"PYTHONPATH": VERIF + os.pathsep + os.path.join(VERIF, ".deps"), "PYTHONDONTWRITEBYTECODE": "1",
+    env.update({"PYTHONPATH": VERIF, "PYTHONDONTWRITEBYTECODE": "1",
                 "PYTHONHASHSEED": env.get("PYTHONHASHSEED", "0"), "COCOASM_VERIF": "1", "VERIF_REPO": REPO,
                 "VERIF_WORK": work})
     procs = []
